@@ -29,7 +29,7 @@ let show_err = function
   | EDepfileWithStyle -> "E 26 -" | EMissingDepfile -> "E 27 -"
   | EUnknownPool v -> "E 28 " ^ hex_of_bytes v
   | EDuplicatePool -> "E 29 -" | EBadDepth -> "E 30 -" | EUnexpectedVar -> "E 31 -" | EMissingDepth -> "E 32 -"
-  | EDuplicateRule -> "E 33 -" | EMissingCommand -> "E 34 -" | EMissingFile -> "E 35 -" | EIncludeTooDeep -> "E 36 -"
+  | EDuplicateRule -> "E 33 -" | EMissingCommand -> "E 34 -" | EMissingFile -> "E 35 -" | EIncludeTooDeep -> "E 36 -" | ERecursiveInclude -> "E 37 -"
   | EParse c -> Printf.sprintf "E %d -" (50 + int_of_n c)
   | ENullNode -> "E 97 -" | EOutOfFuel -> "E 98 -"
 let err_code e = match String.split_on_char ' ' (show_err e) with _ :: c :: _ -> c | _ -> "?"
